@@ -81,3 +81,19 @@ def replay(target, path):
         return 2, log
     p = subprocess.run([binary(target), path], cwd=FUZZ_DIR, env=_env(), stdout=subprocess.PIPE, stderr=subprocess.STDOUT)
     return (0 if p.returncode == 0 else 1), p.stdout.decode('utf-8', 'replace')[-2500:]
+
+
+def program_seeds(extra=()):
+    """starting corpus for the targets that decode (mode, offset, text) with fuzz_targets/common.rs: raw-mode inputs
+    (bit 7 of the first byte set): mode selector, offset selector, then the text"""
+    from .gen.invalid import FAMILIES
+    texts = ['x = 1\n', 'def f(a, *b, c=1, **d):\n    return a\n', 'match x:\n    case [1, *r] if r: pass\n', 'class C(B, k=1):\n  @d\n  async def f(self): await x\n',
+             "f'{x!r:>{w}}' 'a' b'c'\n", 'try:\n  pass\nexcept* E as e:\n  raise\nfinally:\n  pass\n', 'with (a as b, c): pass\n', 'type X[T] = list[T]\n', 'x = [i for i in y if i]\n',
+             'lambda *a, k=1: (yield)\n', 'if x:\n\ty\nelse:\n\tz\n', '\ufeffx = "\\N{DIGIT ONE}"\r\n', 'def f(a, b=1, /, c=2, *, d, e=3, **k): pass\n', 'lambda a=1, /, b=2, *c, d, e=5: 0\n',
+             '() = x\nfor () in y: pass\n', 'x = (1, 2), (a, 3)\n', 'x = """a\n\u00e9b""" + y\n']
+    texts += list(extra)
+    texts += [FAMILIES[n](12) for n in sorted(FAMILIES)]
+    out = []
+    for i, t in enumerate(texts):
+        out.append(bytes([0x80 | (i % 3), i % 6]) + t.encode('utf-8'))
+    return out
